@@ -45,6 +45,57 @@ def frac_ok(impl, num, den):
     return impl[0] == 'ok' and close(impl[1], Fraction(num, den))
 
 
+# ---------------------------------------------------------------- pure evaluation
+# pc / pc_n / pc_joint are functions of their arguments: the caller's count vector / sample / table is the same afterwards, and a second
+# evaluation on the very same objects returns the same fraction (a count vector is typically used again: pc_n, then stdpc_n, ...).
+def snap(x):
+    if isinstance(x, (np.ndarray, pd.Series, pd.DataFrame)):
+        return x.copy()
+    if isinstance(x, tuple):
+        return tuple(snap(y) for y in x)
+    if isinstance(x, list):
+        return list(x)
+    return x
+
+
+def unchanged(x, s):
+    if type(x) is not type(s):
+        return False
+    if isinstance(x, np.ndarray):
+        return x.dtype == s.dtype and x.shape == s.shape and x.tolist() == s.tolist()
+    if isinstance(x, pd.Series):
+        return x.dtype == s.dtype and x.index.equals(s.index) and x.tolist() == s.tolist()
+    if isinstance(x, pd.DataFrame):
+        return x.equals(s) and list(x.columns) == list(s.columns) and x.index.equals(s.index)
+    if isinstance(x, tuple):
+        return len(x) == len(s) and all(unchanged(a, b) for a, b in zip(x, s))
+    return x == s
+
+
+def show_arg(x):
+    if isinstance(x, np.ndarray):
+        return 'ndarray[%s]%s' % (x.dtype, [repr(v) for v in x.tolist()[:30]])
+    if isinstance(x, pd.Series):
+        return 'Series[%s, index %s]%s' % (x.dtype, [str(i) for i in x.index[:30]], [repr(v) for v in x.tolist()[:30]])
+    if isinstance(x, tuple):
+        return '(%s)' % ', '.join(show_arg(y) for y in x)
+    if isinstance(x, list):
+        return 'list%s' % [repr(v) for v in x[:30]]
+    return repr(x)
+
+
+def twice(fn, *args):
+    """Evaluate fn on the SAME argument objects two times.  Returns (first, second, description of a modified argument or None)."""
+    before = snap(args)
+    r1 = call_impl(fn, *args)
+    mod = None
+    for a, b in zip(args, before):
+        if not unchanged(a, b):
+            mod = 'argument %s was %s before the call' % (show_arg(a), show_arg(b))
+    r2 = call_impl(fn, *args)
+    return r1, r2, mod
+
+
 # ---------------------------------------------------------------- containers
 # The value of pc is a function of the sequence of elements only, whatever holds them: a list, an array, or a pandas Series
 # with ANY index (the index is bookkeeping of the table the column came from, never part of the sample).
@@ -83,7 +134,25 @@ COLS = ['TRAV', 'CDR3A', 'TRBV', 'CDR3B']
 CELLPOOL = [['AB', 'A', 'B', 'ABC', 'BC', 'C', ''], ['C', 'BC', 'CB', 'B', 'x'], [1, 2, 12, 3], [0.5, 1.5]]
 
 
-def gen_rows(rng, ncol, nrow, seed_rows=()):
+def near_numbers(rng, floats):
+    """Four different numbers that share their leading d-1 significant digits (d = 1..15) - clone ids / read counts / frequencies that
+    differ only in the last place.  Every one is exact in float64 (ints < 2**53; d <= 15 digits determine a double)."""
+    d = rng.randint(1, 15)
+    m = rng.randint(10 ** (d - 1), 10 ** d - 5)
+    sign = -1 if rng.random() < 0.2 else 1
+    if not floats:
+        return [sign * (m + j) for j in range(4)]
+    e = rng.randint(-12, 12) - d + 1
+    return [sign * float('%de%d' % (m + j, e)) for j in range(4)]
+
+
+def cell_pools(rng):
+    """Per table: the values each column draws from (two string columns, an int column, a float column)."""
+    return [CELLPOOL[0], CELLPOOL[1], CELLPOOL[2] if rng.random() < 0.3 else near_numbers(rng, False),
+            CELLPOOL[3] if rng.random() < 0.3 else near_numbers(rng, True)]
+
+
+def gen_rows(rng, ncol, nrow, seed_rows=(), pools=CELLPOOL):
     """Rows that agree in all columns, in all but one column, or not at all (with earlier rows / the rows of another table)."""
     rows = []
     for _ in range(nrow):
@@ -91,13 +160,13 @@ def gen_rows(rng, ncol, nrow, seed_rows=()):
         src = rows + list(seed_rows)
         if src and c < 0.3:
             rows.append(tuple(rng.choice(src)))                      # agrees in all columns
-        elif src and c < 0.5 and ncol > 1:
+        elif src and c < 0.55 and ncol > 1:
             r = list(rng.choice(src))
-            j = rng.randrange(ncol)
-            r[j] = rng.choice([x for x in CELLPOOL[j % 4] if x != r[j]] or [r[j]])
+            j = rng.randrange(ncol) if rng.random() < 0.5 else ncol - 1
+            r[j] = rng.choice([x for x in pools[j % 4] if x != r[j]] or [r[j]])
             rows.append(tuple(r))                                    # all but one column
         else:
-            rows.append(tuple(rng.choice(CELLPOOL[j % 4]) for j in range(ncol)))
+            rows.append(tuple(rng.choice(pools[j % 4]) for j in range(ncol)))
     return rows
 
 
@@ -117,10 +186,11 @@ def frame(rows, cols, objcols=True, index=None):
 
 
 def row_keys(df, on=None):
-    """One hashable key per row: the tuple of cell texts of the selected columns (missing cell = one distinct empty value)."""
+    """One hashable key per row: the tuple of the cells of the selected columns - strings as they are, NUMBERS BY VALUE (two numeric
+    cells agree iff they are the same number, however many digits they share), a missing cell = one distinct empty value."""
     sub = df if on is None else df[list(on)]
-    return [tuple('' if (x is None or x is pd.NA or (isinstance(x, float) and math.isnan(x))) else str(x) for x in r)
-            for r in sub.itertuples(index=False)]
+    return [tuple('' if (x is None or x is pd.NA or (isinstance(x, float) and math.isnan(x))) else (x if isinstance(x, (int, float)) else x.item() if isinstance(x, np.number) else str(x))
+                  for x in r) for r in sub.itertuples(index=False)]
 
 
 def tok2(k1, k2):
@@ -199,6 +269,91 @@ def numeric_holders(rng, vals):
         out.append(('Series[float64]', lambda x: pd.Series(np.array(x, dtype='float64'))))
     return out
 
+# ---------------------------------------------------------------- two samples whose element types differ in width
+# The two samples of pc(a, b) are independent collections: one may hold longer strings than the other (numpy gives each list its own
+# fixed-width '<Uk' dtype), floats next to the other's ints, or a wider integer / float dtype.  Elements are equal iff they are equal
+# as values; the second sample is built from values EQUAL to elements of the first one and values that merely LOOK alike after a
+# conversion to the other sample's element type (a longer string with an element as prefix, v + 0.5, v + 2**bits, v + a tiny eps).
+LETTERS = 'ACDEFGHIKLMNPQRSTVWY'
+WIDTH_KINDS = ('prefix', 'prefix', 'int-float', 'int-width', 'float-width')
+NARROW_INT = [('int8', 8), ('uint8', 8), ('int16', 16), ('uint16', 16), ('int32', 32), ('uint32', 32)]
+INT_RANGE = {name: (lo, hi) for name, lo, hi in INT_DTYPES}
+
+
+def typed(name, dtype):
+    return [('ndarray[%s]' % dtype, lambda x, d=dtype: np.array(x, dtype=d)), ('Series[%s]' % dtype, lambda x, d=dtype: pd.Series(np.array(x, dtype=d)))]
+
+
+def plain_holders(rng):
+    return [('list', list), ('ndarray', np.array), ('Series', pd.Series), ('Series[permuted index]', lambda x: wrap(rng, x, 'series_perm'))]
+
+
+def width_pair(rng, kind, p1, p2):
+    """Samples a (pattern p1) and b (pattern p2) plus the containers that hold each of them exactly: (a, b, holdersA, holdersB, description)."""
+    k1, k2 = len(p1), len(p2)
+    if kind == 'prefix':
+        stem = ''.join(rng.choice(LETTERS) for _ in range(2))
+        chains = []
+        while len(chains) < 3:
+            c = stem + ''.join(rng.choice(LETTERS) for _ in range(rng.randint(4, 9)))
+            if all(c[2] != d[2] for d in chains):
+                chains.append(c)
+        L = rng.randint(3, 5)
+        allp = sorted({c[:i] for c in chains for i in range(1, len(c) + 1)})
+        av = rng.sample([x for x in allp if len(x) <= L], k1)
+        eq = lambda v: v
+        near = lambda v: [x for x in allp if len(x) > L and x.startswith(v)]
+        others = allp
+        hA = hB = plain_holders(rng)[:2] * 2 + plain_holders(rng)[2:]
+        desc = 'strings of width <= %d against prefixes of %s of any width' % (L, chains)
+    elif kind == 'int-float':
+        sc, off = rng.choice([(1, 0), (1, -3), (-2, 5), (3, 1000), (1, 2 ** 40)])
+        ints = [sc * i + off for i in range(k1 + 3)]
+        av = rng.sample(ints, k1)
+        eq = float
+        near = lambda v: [v + 0.5, v + 0.25, v - 0.25, v - 0.5]
+        others = [float(i) for i in ints]
+        hA = plain_holders(rng) + typed('', 'int64')
+        hB = plain_holders(rng) + typed('', 'float64')
+        desc = 'ints against floats'
+    elif kind == 'int-width':
+        nname, bits = rng.choice(NARROW_INT)
+        lo, hi = INT_RANGE[nname]
+        wides = [w for w, wlo, whi in INT_DTYPES if wlo <= lo and hi <= whi and (wlo, whi) != (lo, hi)]
+        wname = rng.choice(wides)
+        wlo, whi = INT_RANGE[wname]
+        small = sorted({v for v in list(range(-6, 7)) + [lo, lo + 1, hi - 1, hi] if lo <= v <= hi})
+        av = rng.sample(small, k1)
+        eq = lambda v: v
+        near = lambda v: [v + (2 ** bits) * j for j in (-2, -1, 1, 2, 3) if wlo <= v + (2 ** bits) * j <= whi and abs(v + (2 ** bits) * j) <= 2 ** 53]
+        others = [v for v in small if wlo <= v <= whi]
+        hA, hB = typed('', nname), typed('', wname)
+        desc = '%s against %s' % (nname, wname)
+    else:
+        nname, wname, eps = rng.choice([('float16', 'float32', 2.0 ** -13), ('float16', 'float64', 2.0 ** -13), ('float32', 'float64', 2.0 ** -30)])
+        grid = [0.5 * i - 1.0 for i in range(k1 + 4)]
+        av = rng.sample(grid, k1)
+        eq = lambda v: v
+        near = lambda v: [v + eps * j for j in (-1, 1, 2)]
+        others = grid
+        hA, hB = typed('', nname), typed('', wname)
+        desc = '%s against %s' % (nname, wname)
+    cand = []
+    for v in av:
+        nv = near(v)
+        cand += [eq(v)] + (rng.sample(nv, min(2, len(nv))))
+    extra = list(others)
+    rng.shuffle(extra)
+    cand = list(dict.fromkeys(cand + extra[:k2]))           # == - distinct (2 and 2.0 are one value)
+    while len(cand) < k2:
+        cand.append(max(x for x in cand if not isinstance(x, str)) + 1 if kind != 'prefix' else cand[-1] + 'W')
+    bv = rng.sample(cand, k2)
+    a = [x for v, c in zip(av, p1) for x in [v] * c]
+    b = [x for v, c in zip(bv, p2) for x in [v] * c]
+    rng.shuffle(a)
+    rng.shuffle(b)
+    return a, b, hA, hB, desc
+
 
 def run(ctx):
     import pyrepseq.stats as st
@@ -213,7 +368,11 @@ def run(ctx):
                 'members are held in independent containers, one- and two-sample form; (f) numeric samples under injective relabellings '
                 '(affine with negative / 2**40 / 2**62 coefficients, arbitrary value tables incl. int64 / uint64 extremes, +-inf, denormals) '
                 'in every dtype that holds the values exactly (int8..int64, uint8..uint64, float16/32/64, object), one- and two-sample '
-                'form: same value as the unrelabelled sample. non-trivial := at least two values repeat and pc is strictly between 0 and 1 '
+                'form (each sample also in a container / dtype of its own; mixed dtypes whenever their common numpy dtype holds all the numbers): '
+                'same value as the unrelabelled sample; (round 3) count vectors / samples held in ndarray or Series are evaluated twice on the same '
+                'object and must be unchanged; (b2) two samples of different element width: strings vs longer strings with them as prefix, ints vs '
+                'floats (v, v+-0.25, v+-0.5), intN vs wider ints (v + j*2**N), float16/32 vs wider floats (v + eps), both orders; table cells '
+                'with numbers sharing their leading 0-14 significant digits, rows keyed by VALUE; pc_n of the row multiplicities. non-trivial := at least two values repeat and pc is strictly between 0 and 1 '
                 '(two-sample forms: strictly between 0 and 1)')
     Nmax = 8 if ctx.quick else 12
     cases = []
@@ -239,12 +398,25 @@ def run(ctx):
         how = rng.choice(CONTAINERS[1:]) if not mixed else 'ndarray'
         ctx.count('one_sample_container_' + how)
         for name, impl in (('pc', call_impl(st.pc, arg)), ('pc[Series]', call_impl(st.pc, arg if mixed else pd.Series(arg))),
-                           ('pc[%s]' % how, call_impl(st.pc, wrap(rng, arg, how))),
-                           ('pc_n', call_impl(st.pc_n, np.array(mults))), ('pc_n[list]', call_impl(st.pc_n, list(mults)))):
+                           ('pc_n[list]', call_impl(st.pc_n, list(mults))), ('pc_n[tuple]', call_impl(st.pc_n, tuple(mults)))):
             if not frac_ok(impl, num, den):
                 ctx.violation('property', '%s(%s) = %s, but %d of the %d ordered pairs of distinct positions coincide' %
                               (name, [str(x) for x in s[:20]], impl, num, den),
                               dict(func=name, sample=[str(x) for x in s], expected='%d/%d' % (num, den)), site='stats.' + name.split('[')[0])
+        # the same objects evaluated two times: the count vector as np.unique returns it (an ndarray the caller keeps using), counts
+        # held in a Series (value_counts), the sample itself as ndarray / Series
+        labels = ['k%d' % i for i in range(len(mults))]
+        for name, fn, obj in (('pc_n[ndarray]', st.pc_n, np.array(mults)), ('pc_n[ndarray intp]', st.pc_n, np.array(mults, dtype=np.intp)),
+                              ('pc_n[Series]', st.pc_n, pd.Series(list(mults), index=labels)),
+                              ('pc[ndarray]', st.pc, np.array(arg)), ('pc[%s]' % how, st.pc, wrap(rng, arg, how))):
+            r1, r2, mod = twice(fn, obj)
+            if mod or not frac_ok(r1, num, den) or not frac_ok(r2, num, den):
+                given = 'multiplicities %s of sample' % list(mults)[:20] if name.startswith('pc_n') else 'sample'
+                ctx.violation('property', '%s(%s %s) = %s, evaluated once more on the same object = %s%s, but %d of the %d ordered pairs of '
+                              'distinct positions coincide' % (name, given, [str(x) for x in s[:20]], r1, r2,
+                                                               ' (the caller\'s %s)' % mod if mod else '', num, den),
+                              dict(func=name, sample=[str(x) for x in s], multiplicities=[int(m) for m in mults], first=repr(r1), second=repr(r2),
+                                   modified=mod, expected='%d/%d' % (num, den)), site='stats.' + name.split('[')[0])
         if n < 25:
             ctx.add_vm('api_pc1', [tokens(s)], outs[n])
         if len(ctx.violations) > 8:
@@ -280,12 +452,40 @@ def run(ctx):
                               dict(func='pc2', a=a, b=b, containers=name, expected='%d/%d' % (num, den)), site='stats.pc[two]')
     if len(ctx.violations) > 8:
         return
+    # (b2) two samples of different element width / kind, each in a container that holds ITS elements exactly, both orders
+    wp = []
+    for n, (p1, p2) in enumerate(pairs if ctx.quick else pairs * 4):
+        kind = WIDTH_KINDS[n % len(WIDTH_KINDS)]
+        wp.append((kind,) + width_pair(rng, kind, p1, p2))
+    outs = ctx.oracle.run_parallel([('api_pc2', tok2(a, b)) for _, a, b, _, _, _ in wp])
+    for (kind, a, b, hA, hB, desc), (num, den) in zip(wp, outs):
+        nt = 0 < num < den
+        ctx.case(sample=dict(func='pc(a,b)', kind=desc, a=[repr(x) for x in a], b=[repr(x) for x in b], expected='%d/%d' % (num, den))
+                 if nt and len(ctx.samples) < 6 and kind != 'prefix' else None,
+                 nontrivial_key=('pc2w', kind, tuple(a), tuple(b)) if nt else None)
+        ctx.count('two_sample_' + kind)
+        for (na, mka), (nb, mkb) in [(hA[0], hB[0]), (rng.choice(hA), rng.choice(hB))]:
+            A, B = mka(a), mkb(b)
+            if np.asarray(A).tolist() != a or np.asarray(B).tolist() != b:
+                ctx.count('two_sample_skipped_container_not_exact')
+                continue
+            sA, sB = snap(A), snap(B)
+            impl, impl_sym = call_impl(st.pc, A, B), call_impl(st.pc, B, A)
+            mod = None if (unchanged(A, sA) and unchanged(B, sB)) else 'the samples were modified: now %s, %s' % (show_arg(A), show_arg(B))
+            if mod or not frac_ok(impl, num, den) or not frac_ok(impl_sym, num, den):
+                ctx.violation('property', 'pc(a, b) = %s and pc(b, a) = %s for a = %s, b = %s (%s)%s, but %d of the %d cross pairs hold equal elements' %
+                              (impl, impl_sym, show_arg(sA), show_arg(sB), desc, '; ' + mod if mod else '', num, den),
+                              dict(func='pc2', a=[repr(x) for x in a], b=[repr(x) for x in b], held_in=[na, nb], kind=desc,
+                                   expected='%d/%d' % (num, den)), site='stats.pc[two,%s]' % kind)
+    if len(ctx.violations) > 8:
+        return
     # (c) tables
     for t in range(60 if ctx.quick else 3000):
         ncol, nrow = rng.randint(1, 4), rng.randint(2, 8)
         cols = COLS[:ncol]
         with_missing = rng.random() < 0.4
-        rows = gen_rows(rng, ncol, nrow)
+        pools = cell_pools(rng)
+        rows = gen_rows(rng, ncol, nrow, pools=pools)
         if ncol >= 2:
             rows += [('AB', 'C') + rows[0][2:], ('A', 'BC') + rows[0][2:]]   # equal only after concatenation without separator
         if with_missing:
@@ -295,8 +495,10 @@ def run(ctx):
         keyrows = row_keys(df)
         on = ordered_subset(rng, cols)           # pc_joint on any selection of the columns, in any order
         keyon = row_keys(df, on)
-        (num, den), (non, don) = ctx.oracle.run([('api_pc1', [tokens(keyrows)]), ('api_pc1', [tokens(keyon)])])
+        (num, den), (non, don), rmults = ctx.oracle.run([('api_pc1', [tokens(keyrows)]), ('api_pc1', [tokens(keyon)]), ('api_mults', [tokens(keyrows)])])
         nt = 0 < num < den
+        if ncol >= 3:
+            ctx.count('table_numeric_cells_%s' % ('small' if pools[2] is CELLPOOL[2] else 'sharing_leading_digits'))
         ctx.count('table_with_missing' if with_missing else 'table_no_missing')
         ctx.case(sample=dict(func='pc(table)', rows=[list(map(str, r)) for r in rows[:5]], expected='%d/%d' % (num, den)) if nt and len(ctx.samples) < 6 else None,
                  nontrivial_key=('table', tuple(keyrows)) if nt else None)
@@ -304,7 +506,8 @@ def run(ctx):
         for name, impl, (n_, d_), sel in (('pc[table]', call_impl(st.pc, df), (num, den), cols),
                                           ('pc_joint', call_impl(st.pc_joint, df, list(cols)), (num, den), cols),
                                           ('pc_joint', call_impl(st.pc_joint, df, list(on)), (non, don), on),
-                                          ('pc[table]', call_impl(st.pc, df[list(on)]), (non, don), on)):
+                                          ('pc[table]', call_impl(st.pc, df[list(on)]), (non, don), on),
+                                          ('pc_n[multiplicities %s of the rows]' % list(rmults), call_impl(st.pc_n, np.array(rmults)), (num, den), cols)):
             if not frac_ok(impl, n_, d_):
                 ctx.violation('property', '%s on rows %s (columns %s, selected %s) = %s, but %d/%d row pairs agree in every selected column' %
                               (name, rows, cols, list(sel), impl, n_, d_),
@@ -319,6 +522,15 @@ def run(ctx):
             n2, d2 = ctx.oracle.run([('api_pc1', [tokens(k2)])])[0]
             if not frac_ok(impl, n2, d2):
                 ctx.violation('property', 'pc((alpha, beta) tuple) = %s, expected %d/%d' % (impl, n2, d2), dict(a=a, b=b), site='stats.pc[tuple]')
+        if ncol == 4 and t % 2 == 0:
+            # a legacy tuple of two numeric chains is a two-column table of numbers
+            a, b = [r[2] for r in rows], [r[3] for r in rows]
+            impl = call_impl(st.pc, (a, b))
+            n2, d2 = ctx.oracle.run([('api_pc1', [tokens(list(zip(a, b)))])])[0]
+            if not frac_ok(impl, n2, d2):
+                ctx.violation('property', 'pc((%s, %s)) [legacy tuple of numeric chains] = %s, but %d/%d pairs of positions hold equal pairs of numbers' %
+                              (a, b, impl, n2, d2), dict(func='pc((a, b))', a=[repr(x) for x in a], b=[repr(x) for x in b],
+                                                         expected='%d/%d' % (n2, d2)), site='stats.pc[tuple]')
         if len(ctx.violations) > 8:
             return
     # (c2) pairs of tables: pc(t1, t2), pc_joint(t1, on, t2)
@@ -326,8 +538,9 @@ def run(ctx):
         ncol, n1, n2 = rng.randint(1, 4), rng.randint(1, 7), rng.randint(1, 7)
         cols = COLS[:ncol]
         with_missing = rng.random() < 0.4
-        rows1 = gen_rows(rng, ncol, n1)
-        rows2 = gen_rows(rng, ncol, n2, seed_rows=rows1)
+        pools = cell_pools(rng)
+        rows1 = gen_rows(rng, ncol, n1, pools=pools)
+        rows2 = gen_rows(rng, ncol, n2, seed_rows=rows1, pools=pools)
         if ncol >= 2:
             rows1.append(('AB', 'C') + rows1[0][2:])                     # equal only after concatenation without separator
             rows2.append(('A', 'BC') + rows1[0][2:])
@@ -455,26 +668,39 @@ def run(ctx):
             ctx.case(sample=dict(func='pc', relabelling=desc, sample=[repr(x) for x in fa[:10]], held_in=chosen[0][0], expected='%d/%d' % one)
                      if nt and n % 30 == 0 and rep == 0 else None,
                      nontrivial_key=('num', desc, tuple(a), tuple(b)) if nt else None)
-            for hname, mk in chosen:
-                A, B = mk(fa), mk(fb)
+            # the two samples are independent collections: besides one common container, each in a container chosen for ITS numbers alone
+            hsa, hsb = numeric_holders(rng, fa), numeric_holders(rng, fb)
+            trials = [(h, h) for h in chosen] + [(rng.choice(hsa), rng.choice(hsb)) for _ in range(2)]
+            for (hname, mk), (hname2, mk2) in trials:
+                A, B = mk(fa), mk2(fb)
                 if np.asarray(A).tolist() != fa or np.asarray(B).tolist() != fb:
                     # the container does not hold the numbers: numpy turns a list of Python ints on both sides of 2**63 into float64
                     ctx.count('numeric_skipped_container_not_exact')
                     continue
                 ctx.count('numeric_' + hname)
-                checks = [('pc(sample)', call_impl(st.pc, A), one)]
-                if np.asarray(A).dtype == np.asarray(B).dtype:
+                sA, sB = snap(A), snap(B)
+                checks = [('pc(sample)', call_impl(st.pc, A), one)] if hname == hname2 else []
+                da, db = np.asarray(A).dtype, np.asarray(B).dtype
+                exact = da == db
+                if not exact:
+                    # numpy compares the two samples in their common dtype; the pair is checked when that dtype holds all the numbers
+                    # (uint64 next to int64 -> float64 merges neighbours above 2**53: the recorded finding of section (g))
+                    rt = np.result_type(da, db)
+                    exact = rt == object or (np.asarray(A).astype(rt).tolist() == fa and np.asarray(B).astype(rt).tolist() == fb)
+                    ctx.count('numeric_pair_mixed_dtype_' + ('checked' if exact else 'skipped_common_dtype_not_exact'))
+                if exact:
                     checks += [('pc(sample, sample2)', call_impl(st.pc, A, B), cross), ('pc(sample2, sample)', call_impl(st.pc, B, A), cross)]
-                else:
-                    # a container that infers its dtype per sample (uint64 next to int64): numpy compares such a pair in float64
-                    ctx.count('numeric_pair_skipped_mixed_dtype')
+                held = hname if hname == hname2 else '%s / %s' % (hname, hname2)
+                if not (unchanged(A, sA) and unchanged(B, sB)):
+                    ctx.violation('property', 'pc modified the caller\'s sample: %s, %s before, %s, %s afterwards' % (show_arg(sA), show_arg(sB), show_arg(A), show_arg(B)),
+                                  dict(func='pc', sample=[repr(x) for x in fa], sample2=[repr(x) for x in fb], held_in=held), site='stats.pc[mutation]')
                 for name, impl, (n_, d_) in checks:
                     if not frac_ok(impl, n_, d_):
                         ctx.violation('property', '%s = %s for sample %s%s held in %s, but %d of the %d pairs hold equal numbers (the sample is the '
                                       'injective relabelling %s of %s%s, on which the value is %d/%d: C02_relabel_invariant)' %
-                                      (name, impl, fa[:30], '' if name == 'pc(sample)' else ', sample2 %s' % fb[:30], hname, n_, d_, desc, a[:30],
+                                      (name, impl, fa[:30], '' if name == 'pc(sample)' else ', sample2 %s' % fb[:30], held, n_, d_, desc, a[:30],
                                        '' if name == 'pc(sample)' else ' / %s' % b[:30], n_, d_),
-                                      dict(func=name, sample=[repr(x) for x in fa], sample2=[repr(x) for x in fb], held_in=hname, relabelling=desc,
+                                      dict(func=name, sample=[repr(x) for x in fa], sample2=[repr(x) for x in fb], held_in=held, relabelling=desc,
                                            base=a, base2=b, expected='%d/%d' % (n_, d_)), site='stats.pc[numeric]')
             if len(ctx.violations) > 8:
                 return
@@ -501,9 +727,9 @@ def run(ctx):
                           'np.asarray / np.intersect1d)' % (la, '' if lb is None else ', %s' % lb, g, num, den),
                           dict(func='pc', a=[str(x) for x in la], b=None if lb is None else [str(x) for x in lb], expected='%d/%d' % (num, den)),
                           site='stats.pc[numbers beyond float64 exactness]')
-    ctx.assumptions += ['str() of a cell is injective on the generated cell domain; cells contain neither "." nor "_" (stated domain)',
+    ctx.assumptions += ['str() of a STRING cell is the cell (numeric cells are compared by value); string cells contain neither "." nor "_" (stated domain)',
                         'numpy.unique / intersect1d group equal values (exercised, incl. object arrays of mixed type, every integer / float dtype '
-                        'that holds the sample exactly; both samples of the two-sample form share one dtype)']
+                        'that holds the sample exactly; two samples of different dtypes whenever numpy\'s common dtype holds every number of both)']
 
 
 def replay(ctx, obj):
